@@ -268,6 +268,15 @@ def gen(tier, seed):
             yield c
 
 
+def pretext_of(spec, decls):
+    """the earlier accepted text: comments and blank lines, and every plain top-level section opened once with an empty body"""
+    t = spec.get('pretext', '')
+    for d in decls:
+        if d.typ == 'sec' and not d.is_multi and not (d.flags & core.F_TITLE):
+            t += '%s {\n}\n' % d.name
+    return t
+
+
 def script(spec):
     if 'skip' in spec:
         return skip_script(spec)
@@ -280,14 +289,16 @@ def script(spec):
         if name != 'main':
             L.append('mkfile %s %s' % (hx(d + '/' + name), hx(text)))
     L.append('mkfile %s %s' % (hx(d + '/main.conf'), hx(files['main'])))
-    L.append('mkfile %s %s' % (hx(d + '/pre.conf'), hx(spec.get('pretext', ''))))
+    L.append('mkfile %s %s' % (hx(d + '/pre.conf'), hx(pretext_of(spec, decls))))
     L.append('chdir %s' % hx(d))
     L += lines
     L.append('init 0 %d 0' % sid)
     pre = spec.get('pre')
     if pre:
-        L.append('parse_file 0 %s' % hx('pre.conf') if pre == 'file' else 'parse_%s 0 %s' % (pre, hx(spec['pretext'])))
+        L.append('parse_file 0 %s' % hx('pre.conf') if pre == 'file' else 'parse_%s 0 %s' % (pre, hx(pretext_of(spec, decls))))
         L.append('note prepared')
+        if spec.get('seed', 0) % 3 == 0:
+            L.append('seterrfunc 0 2')        # another error function from here on: every later diagnostic must arrive there
     if spec.get('failat'):
         L.append('failat %d' % spec['failat'])
     entry = spec.get('entry', 'buf')
@@ -313,7 +324,7 @@ def judge(spec, events, death):
             v.bad('harness:short-log', 'no parse result')
             return v
         if r[0]['rc'] != 0:
-            v.bad('earlier-parse-rejected', 'a text of comments and blank lines %r was rejected (rc=%s)' % (spec['pretext'], r[0]['rc']))
+            v.bad('earlier-parse-rejected', 'an earlier text of comments, blank lines and empty plain sections was rejected (rc=%s)' % r[0]['rc'])
             return v
         cut = next(k for k, e in enumerate(events) if e.get('ev') == 'r' and e.get('op') in ('parse_buf', 'parse_fp', 'parse_file'))
         events = events[cut + 1:]
@@ -324,6 +335,12 @@ def judge(spec, events, death):
     if not r:
         v.bad('harness:short-log', 'no parse result')
         return v
+    if spec.get('pre') and spec.get('seed', 0) % 3 == 0:
+        v.notes['error_function_changed_between_parses'] = 1
+        nh = len([e for e in events if e.get('ev') == 'handler' and e.get('h') == 2])
+        if nh != len(diags):
+            v.bad('wrong-error-function', '%d of %d diagnostics of the second parse went to the error function that had been replaced before it; text %r' % (len(diags) - nh, len(diags), files['main'][:300]))
+            return v
     # first clause, independent of any model: a failed parse has delivered at least one diagnostic
     if r[0]['rc'] != 0 and not diags:
         why = it.why if verdict == 'reject' else verdict
